@@ -1,4 +1,5 @@
 """C11 - width_aware_splitlines wraps to the column limit without losing anything."""
+import functools
 import itertools
 import wire
 from wire import mk_fmt, cells
@@ -77,7 +78,7 @@ def mk_cases(ctx):
     for n in range(6 if ctx.thorough else 5):
         for tup in itertools.product(ALPHA3, repeat=n):
             s = "".join(tup)
-            for ch in cut_layouts(s, PALETTE, max_cuts=2):
+            for ch in cut_layouts(s, PALETTE, max_cuts=2 if (ctx.thorough or n <= 3) else 1):
                 for columns in (2, 3, 4):
                     pre.append(dict(op="wasplit", f=ch, columns=columns, pre=["str", "hash", "eq"]))
             for kinds in (["str"], ["hash"], ["eq"], ["repr", "str"]):
@@ -210,16 +211,33 @@ def _impl(c):
                 out.append("%d~%s~%s~%s" % (r[0], wire.enc_chunk(r[1]), getattr(sp, "internal_offset", "?"),
                                             getattr(sp, "internal_width", "?")))
         return "ok [" + " ".join(out) + "]"
-    return guarded(lambda: reply_fmt_list(run_impl(c)))
+    kind, val = outcome(c)
+    if kind == "raised":
+        if isinstance(val, wire.Unencodable):
+            raise val
+        return wire.exc_kind(val)
+    return reply_fmt_list(val)
 
 
 impl = safe_impl(_impl)
 
 
+@functools.lru_cache(maxsize=400000)
 def canon(reply):
     if reply.startswith("ok [") and "~" not in reply and "N" not in reply and "E:" not in reply:
         return canon_cells_list(reply)
     return reply
+
+
+@functools.lru_cache(maxsize=400000)
+def canon_placement(reply):
+    r = canon(reply)
+    if isinstance(r, tuple) and r and r[0] == "cellslist":
+        cols = [tuple(x for x in l if wc(x[0]) != 0) for l in r[1]]
+        while cols and not cols[-1]:
+            cols.pop()
+        return ("lines-up-to-zero-width-placement", tuple(cols), tuple(x for l in r[1] for x in l))
+    return r
 
 
 # ------------------------------------------------------------------------------------------------ oracle
@@ -270,6 +288,20 @@ def observe_rendering(lines, deep):
     return None
 
 
+_LINES = {}     # id(case) -> lines / exception produced by the ONE call of the real code shared by tie and oracle
+
+
+def outcome(c):
+    """run the real code once per case: -> ('lines', [FmtStr]) or ('raised', exception)"""
+    k = id(c)
+    if k not in _LINES:
+        try:
+            _LINES[k] = ("lines", run_impl(c))
+        except Exception as e:  # noqa: BLE001
+            _LINES[k] = ("raised", e)
+    return _LINES[k]
+
+
 def _oracle(c):
     if c["op"] != "wasplit" or c["columns"] < 2:
         return None
@@ -277,10 +309,9 @@ def _oracle(c):
     if any(wc(ch) not in (0, 1, 2) for ch, _ in cs):
         return None
     columns = c["columns"]
-    try:
-        lines = run_impl(c)
-    except Exception as e:  # noqa: BLE001
-        return "raised %s" % type(e).__name__
+    kind, lines = outcome(c)
+    if kind == "raised":
+        return "raised %s" % type(lines).__name__
     if any(k in c for k in ("pre", "build", "pool", "inter")) or len(cs) <= 4:
         w = observe_rendering(lines, deep="pre" in c)
         if w:
@@ -344,24 +375,35 @@ def nontrivial(c):
 def check(ctx):
     self_check(ctx)
     cases, extra = mk_cases(ctx)
-    everything = list(cases) + list(extra)
-    inside = [c for c in everything if in_quantifier(c)]
-    outside = [c for c in everything if not in_quantifier(c)]
-    # property level: per-character cells of every line, inputs inside the quantifier (columns >= 2, widths 0/1/2)
-    ctx.tie("C11/wasplit", inside, line, impl, canon, canon)
-    # representation level: columns < 2 and control characters (exception kinds), and the ChunkSplitter protocol itself
-    # (request() return values, internal_offset/internal_width): stricter than / outside the property, never a verdict
-    ctx.tie("C11/outside-quantifier", outside, line, impl, canon, canon, level="representation")
-    for c in cases:
-        w = oracle(c)
-        ctx.count(c, nontrivial=nontrivial(c), tag="columns=%d" % c["columns"])
-        if w:
-            ctx.violation(w, c, footprint(c, w))
-    for c in extra:
-        w = oracle(c)
-        ctx.count(c, nontrivial=nontrivial(c), tag="extra-" + c["op"])
-        if w:
-            ctx.violation(w, c, footprint(c, w))
+    tagged = [(c, "columns=%d" % c["columns"]) for c in cases] + [(c, "extra-" + c["op"]) for c in extra]
+    BATCH = 40000        # the real code runs ONCE per case (outcome()); batches bound the memory held between tie and oracle
+    for i in range(0, len(tagged), BATCH):
+        batch = tagged[i:i + BATCH]
+        everything = [c for c, _ in batch]
+        inside = [c for c in everything if in_quantifier(c)]
+        outside = [c for c in everything if not in_quantifier(c)]
+        memo = {}
+
+        def impl_once(c, memo=memo):
+            if id(c) not in memo:
+                memo[id(c)] = impl(c)
+            return memo[id(c)]
+        # property level: inputs inside the quantifier (columns >= 2, widths 0/1/2), compared as the property observes lines:
+        # "per character up to placement of zero-width characters" = the column-occupying cells of every line (padding
+        # included) plus the full character sequence of all lines together
+        ctx.tie("C11/wasplit", inside, line, impl_once, canon_placement, canon_placement)
+        # representation level: on which line exactly each zero-width character sits (the model mirrors the code's choice)
+        exact = [c for c in inside if len(text_of(c["f"])) <= (5 if ctx.thorough else 4) or any(k in c for k in ("pre", "build", "pool", "inter"))]
+        ctx.tie("C11/wasplit-exact-lines", exact, line, impl_once, canon, canon, level="representation")
+        # representation level: columns < 2 and control characters (exception kinds), and the ChunkSplitter protocol itself
+        # (request() return values, internal_offset/internal_width): stricter than / outside the property, never a verdict
+        ctx.tie("C11/outside-quantifier", outside, line, impl, canon, canon, level="representation")
+        for c, tag in batch:
+            w = oracle(c)
+            ctx.count(c, nontrivial=nontrivial(c), tag=tag)
+            if w:
+                ctx.violation(w, c, footprint(c, w))
+        _LINES.clear()
     flush_stats(ctx)
 
 
@@ -378,6 +420,7 @@ def search(ctx):
     cases, _ = mk_cases(ctx)
     for c in cases:
         w = oracle(c)
+        _LINES.pop(id(c), None)
         ctx.count(c, tag="search")
         if w:
             ctx.violation(w, c, footprint(c, w))
